@@ -9,8 +9,8 @@ xh : ``_fetch_and_resolve`` (real bytecode, together with the real ``_dispatch_l
 
      (a) a batch is returned  <=>  (no expected digest or digest equal) and no batch carries vgi_rpc.location
          and no EXCEPTION-level log batch and exactly one data batch and its schema is equal; the batch returned
-         is that data batch with its own metadata plus the two provenance keys; otherwise an exception escapes.
-         With a digest mismatch the payload is not even parsed.
+         is that data batch, its own metadata survives and the payload's log messages are delivered (each once);
+         otherwise an exception escapes — ANY exception: which check fires first, its class and wording are not fixed.
      (b) nothing of a rejected payload reaches application code: when the call raises, ``on_log`` was not invoked.
 """
 
@@ -25,8 +25,7 @@ from engine.reglob import reglobalize
 
 from vgi_rpc import external as ext
 from vgi_rpc.log import Level
-from vgi_rpc.metadata import LOCATION_FETCH_MS_KEY, LOCATION_KEY, LOCATION_SOURCE_KEY, LOG_LEVEL_KEY, LOG_MESSAGE_KEY
-from vgi_rpc.rpc import RpcError
+from vgi_rpc.metadata import LOCATION_KEY, LOG_LEVEL_KEY, LOG_MESSAGE_KEY
 from vgi_rpc.rpc import _wire as wire
 
 PROPERTY = "C30"
@@ -35,7 +34,9 @@ _NB = pick(2, 3)
 BOUNDS = "payloads of 0..%d batches, every combination of the 6 per-batch flags and of the schema relation (names / types / nullability equal or not), expected digest absent / equal to / different from the payload's (ideal hash)" % _NB
 OUTSIDE = (
     "transparency of offload (maybe_externalize_* -> storage -> fetch -> identical batches: Arrow, storage and aiohttp); the HTTP fetch itself "
-    "(C31); SHA-256 (ideal hash); the retry wrapper resolve_external_location (tenacity is not installed here); Arrow's schema equality"
+    "(C31); SHA-256 (ideal hash); the retry wrapper resolve_external_location (tenacity is not installed here); Arrow's schema equality; "
+    "which integrity check rejects a payload that fails several, the exception class / text, the provenance keys attached to an accepted batch, "
+    "how often the object is fetched, whether a payload with a wrong digest is parsed before it is refused (only: nothing of it is handed out)"
 )
 ASSUMPTIONS = [
     "fetch_url := returns an opaque blob for the URL (records the call)",
@@ -441,31 +442,52 @@ def _normalise_schema_flags(n, flags):  # type: ignore[no-untyped-def]
     return [f[:6] + (first_same,) for f in flags]
 
 
-def _real_reason(exc) -> str:  # type: ignore[no-untyped-def]
-    if exc is None:
-        return "ok"
-    if isinstance(exc, RpcError):
-        return "exception-log"
-    text = str(exc)
-    for needle, reason in (("SHA-256", "digest"), ("Redirect loop", "pointer"), ("No data batch", "count"), ("Multiple data batches", "count"),
-                           ("Schema mismatch", "schema")):
-        if needle in text:
-            return reason
-    return "other:" + type(exc).__name__
+def _real_facts(data: bytes, has_expected: bool, digest_equal: bool) -> tuple:
+    """What the property statement says about THESE real bytes, read back with plain pyarrow (no repo code):
+    (acceptable?, why not, the single data batch, number of log batches)."""
+    if has_expected and not digest_equal:
+        return False, "its SHA-256 differs from the pointer's", None, 0
+    rd = pa.ipc.open_stream(_RealBytesIO(data))
+    data_batches, logs, why = [], 0, ""
+    while True:
+        try:
+            b, cm = rd.read_next_batch_with_custom_metadata()
+        except StopIteration:
+            break
+        if cm is not None and cm.get(LOCATION_KEY) is not None:
+            why = why or "it contains another pointer (vgi_rpc.location)"
+        elif cm is not None and b.num_rows == 0 and cm.get(LOG_LEVEL_KEY) is not None and cm.get(LOG_MESSAGE_KEY) is not None:
+            if cm.get(LOG_LEVEL_KEY) == Level.EXCEPTION.value.encode():
+                why = why or "it carries an EXCEPTION-level log batch (inline delivery raises RpcError)"
+            logs += 1
+        else:
+            data_batches.append((b, cm))
+    if not why and len(data_batches) != 1:
+        why = f"it holds {len(data_batches)} data batches"
+    if not why and data_batches[0][0].schema != _RS:
+        why = f"its schema {data_batches[0][0].schema} differs from the pointer's"
+    return (not why), why, (data_batches[0] if len(data_batches) == 1 else None), logs
 
 
 def _replay_table(args: dict) -> str | None:
+    """Accept / reject only: the real function hands a payload out  <=>  the payload (as read back with plain pyarrow)
+    is one the property allows.  Which check rejected it, with which exception class or text, is not compared."""
     n = args["n"]
     flags = _normalise_schema_flags(n, _flags_of(args))
     deq = args["digest_equal"]
     res, exc, logs = _real_call(n, flags, args["has_expected"], deq)
-    want = _oracle([_mk_batch(i, *flags[i]) for i in range(n)], args["has_expected"], deq)
-    want_reason = "ok" if want[0] == "ok" else want[1]
-    got = _real_reason(exc)
-    if got != want_reason:
-        return (f"real _fetch_and_resolve on a payload of {n} batches (flags zero/cm/location/level/message/exception/schema-equal = {flags[:n]}, "
-                f"expected digest {'absent' if not args['has_expected'] else ('equal' if deq else 'different')}): "
-                f"{'returned a batch' if exc is None else 'raised ' + type(exc).__name__ + ' (' + got + ')'} but the integrity rule says {want_reason}")
+    ok, why, data_batch, n_logs = _real_facts(_real_payload(n, flags), args["has_expected"], deq)
+    head = (f"real _fetch_and_resolve on a payload of {n} batches (flags zero/cm/location/level/message/exception/schema-code = {flags[:n]}, "
+            f"expected digest {'absent' if not args['has_expected'] else ('equal' if deq else 'different')}): ")
+    if exc is None and not ok:
+        return head + f"returned a batch although {why}"
+    if exc is not None and ok:
+        return head + f"raised {type(exc).__name__}: {str(exc)[:120]!r} although the payload passes every integrity check"
+    if exc is None and ok:
+        if not res[0].equals(data_batch[0]):
+            return head + "returned a batch that is not the payload's data batch"
+        if len(logs) != n_logs:
+            return head + f"delivered {len(logs)} log message(s), the payload holds {n_logs}"
     return None
 
 
@@ -491,36 +513,24 @@ def payload_returned_iff_all_checks_pass(n: int, has_expected: bool, digest_equa
     post: _
     """
     flags = [(z0, c0, l0, v0, m0, x0, s0), (z1, c1, l1, v1, m1, x1, s1), (z2, c2, l2, v2, m2, x2, s2)]
-    try:
-        batches, res, exc, logs = _run(n, flags, has_expected, _EXP, _EXP if digest_equal else _OTHER)
-    except HarnessModelError:
-        return False
+    batches, res, exc, logs = _run(n, flags, has_expected, _EXP, _EXP if digest_equal else _OTHER)  # a HarnessModelError escapes: model error, not a verdict
     want = _oracle(batches, has_expected, digest_equal)
-    if _HOLD.get("fetches") != 1:
-        return False
     if want[0] == "err":
-        if exc is None:
-            return False
-        if want[1] == "digest":
-            # refused before the payload is parsed at all
-            return isinstance(exc, RuntimeError) and not _HOLD.get("parsed") and not logs
-        if want[1] == "exception-log":
-            return isinstance(exc, RpcError)
-        if want[1] == "schema":
-            return isinstance(exc, ValueError)
-        return isinstance(exc, RuntimeError)
+        # the payload fails a check: it is not handed out.  WHICH check fires first, the exception class and
+        # its wording are the implementation's business (several checks can fail at once); what reaches on_log
+        # of a rejected payload is item (b).
+        return exc is not None
     if exc is not None or res is None:
         return False
     batch, cm = res
     if batch is not want[1]:
         return False
-    # the data batch's own metadata survives, plus provenance; the secret-bearing URL is recorded as source only
-    if cm is None or cm.get(b"user.key") != ((b"u%d" % batch.idx) if batch.cm is not None else None):
+    # identical to inline delivery: the data batch's own metadata survives (whatever else is attached to it),
+    # and the payload's log messages are delivered — each once
+    own = (b"u%d" % batch.idx) if batch.cm is not None else None
+    if (cm.get(b"user.key") if cm is not None else None) != own:
         return False
-    if cm.get(LOCATION_SOURCE_KEY) != _URL.encode() or cm.get(LOCATION_FETCH_MS_KEY) is None or cm.get(LOCATION_KEY) is not None:
-        return False
-    # the digest is checked whenever one is expected, and all batches were read (no early hand-out)
-    return (bool(_HOLD.get("hashed")) == has_expected) and _HOLD.get("read", 0) == n and len(logs) == want[2]
+    return len(logs) == want[2]
 
 
 @cond(q=60, t=300, stubs=_STUBS, encoded=[ext._fetch_and_resolve, wire._dispatch_log_or_error], bound=BOUNDS, replay=_replay_logs,
@@ -534,10 +544,7 @@ def nothing_of_a_rejected_payload_reaches_on_log(n: int, has_expected: bool, dig
     post: _
     """
     flags = [(z0, c0, l0, v0, m0, x0, s0), (z1, c1, l1, v1, m1, x1, s1), (z2, c2, l2, v2, m2, x2, s2)]
-    try:
-        batches, res, exc, logs = _run(n, flags, has_expected, _EXP, _EXP if digest_equal else _OTHER)
-    except HarnessModelError:
-        return False
+    batches, res, exc, logs = _run(n, flags, has_expected, _EXP, _EXP if digest_equal else _OTHER)  # a HarnessModelError escapes
     if exc is None:
         return True
     if logs and is_open("C30:fetch-and-resolve:logs-dispatched-before-rejection"):
